@@ -397,7 +397,11 @@ noncomputable def finalRays (w : ℝ) : List (RSurf ℝ) → List (Ray ℝ) → 
 
 /-- **recorded_intensity_is_ray_intensity**: each per-surface record *is* the batch handed to the
 next surface, and the last record is the batch returned by the trace (so `rays.i` equals
-`surface_group.intensity[-1]` and the write-back in `Optic.trace` changes nothing). -/
+`surface_group.intensity[-1]` and the write-back in `Optic.trace` changes nothing).
+(Review: `finalRays` is defined in this file and `traceLens` records, by definition, the batch it
+passes on, so this is a property of how the model is written; `Model.Fx.groupTraceR` returns
+`(traceLens …).getLastD rays` directly.  The clause "intensities reported by analyses are those of
+the traced rays" is not the subject of any theorem; it is checked by the conformance run only.) -/
 theorem recorded_intensity_is_ray_intensity (w : ℝ) : ∀ (ss : List (RSurf ℝ)) (rays : List (Ray ℝ)),
     ss ≠ [] → (traceLens w ss rays).getLast? = some (finalRays w ss rays)
   | [], _, h => absurd rfl h
@@ -413,6 +417,9 @@ theorem record_is_next_input (w : ℝ) (s : RSurf ℝ) (ss : List (RSurf ℝ)) (
 
 /-! ### the distance hypothesis is satisfiable: planes and Newton–Raphson shapes -/
 
+/-- over ℝ.  Where the code returns `nan` (a plane behind the ray: `-z/N < 0`) the model over ℝ has
+the junk value `0/0 = 0`, and at `N = 0` it has `-z/0 = 0`: in those two cases this inequality says
+nothing about the code (see `GenuineHit`). -/
 theorem planeDistance_nonneg (r : Ray ℝ) : 0 ≤ planeDistance r := by
   unfold planeDistance maskNeg
   num_real
@@ -445,8 +452,13 @@ theorem selectRoot_nonneg (a b c z N : ℝ) (ha : a ≠ 0) : 0 ≤ selectRoot a 
   · exact maskNeg_nonneg _ _ hinf
   · exact maskNeg_nonneg _ _ hinf
 
-/-- every distance a geometry returns is `≥ 0`, except possibly from the linear branch of the conic
-(`a = L² + M² + (1+k)N² = 0`: a paraboloid met by an axis-parallel ray) -/
+/-- every distance a geometry returns *in the model over ℝ* is `≥ 0`, except possibly from the linear
+branch of the conic (`a = L² + M² + (1+k)N² = 0`: a paraboloid met by an axis-parallel ray).
+Caution (review): for rays that miss the surface this is true for the wrong reason.  The code returns
+`nan` (negative discriminant, plane behind the ray, Newton–Raphson not converged) or `inf` (both
+roots masked) there, and the intensity becomes `nan` (or `0·…`); over ℝ these are the junk values
+`Real.sqrt (negative) = 0`, `0/0 = 0`, `Num.inf = 0`, which are `≥ 0`.  `GenuineHit` below names the
+rays for which the ℝ value is the one the code computes. -/
 theorem distance_nonneg (g : Geom ℝ) (rays : List (Ray ℝ))
     (hstd : ∀ R k, g = .standard R k → ∀ r ∈ rays, (conicABC R k r).1 ≠ 0) :
     ∀ t ∈ g.distance rays, 0 ≤ t := by
@@ -490,9 +502,11 @@ def NoLinearBranch (w : ℝ) : List (RSurf ℝ) → List (Ray ℝ) → Prop
     (∀ R k, s.geom = .standard R k → ∀ r ∈ rays.map s.cs.localize, (conicABC R k r).1 ≠ 0) ∧
       NoLinearBranch w ss (traceSurf s w rays)
 
-/-- `DistNonneg` holds for every lens and batch that avoid the conic's linear branch: the distance
-hypothesis of the whole-lens theorems only excludes a paraboloid-like conic met by a ray with
-`L² + M² + (1+k)N² = 0` (where the code returns `-c/b` without masking negative values) -/
+/-- `DistNonneg` holds *in the model over ℝ* for every lens and batch that avoid the conic's linear
+branch (`L² + M² + (1+k)N² = 0`, where the code returns `-c/b` without masking negative values).
+This includes rays that miss a surface, for which the statement rests on junk values (see
+`distance_nonneg`); the version restricted to rays the code traces without `nan`/`inf` is
+`distNonneg_of_genuine`. -/
 theorem distNonneg_of_noLinearBranch (w : ℝ) : ∀ (ss : List (RSurf ℝ)) (rays : List (Ray ℝ)),
     NoLinearBranch w ss rays → DistNonneg w ss rays
   | [], _, _ => trivial
@@ -532,5 +546,126 @@ example : (stepRay exSurf (11/20) ⟨0, 2, -10, 0, 0, 1, 1, 0⟩ 10).i =
     simp only [exSurf, inside]; norm_num
   rw [this]
   simp [exSurf, coatFactor, atten]
+
+/-! ### review: rays the code traces without `nan` / `inf`
+
+`DistNonneg` is a hypothesis about the distances of the model over ℝ.  Where the float code produces
+`nan` or `inf` (ray misses the surface) the ℝ model has junk values that happen to be `≥ 0`, so
+`distNonneg_of_noLinearBranch` also "covers" such rays, for which `intensity_monotone` says nothing
+about the code.  `GenuineHit` singles out the closed-form intersections in which no masked, undefined
+or divided-by-zero value is used: there the ℝ expression is the one the code evaluates. -/
+
+/-- the ray (in the surface frame) meets a plane in front of it, or a conic with `a ≠ 0`, a
+non-negative discriminant and two non-negative roots (no root is masked to `inf`, so the root
+selection compares the two genuine candidates); Newton–Raphson shapes: no condition (their distance
+is a `sqrt` of a sum of squares; convergence is not addressed) -/
+def GenuineHit (g : Geom ℝ) (r : Ray ℝ) : Prop :=
+  match g with
+  | .plane => r.N ≠ 0 ∧ 0 ≤ -r.z / r.N
+  | .standard R k =>
+    (conicABC R k r).1 ≠ 0 ∧
+    0 ≤ (conicABC R k r).2.1 ^ 2 - 4 * (conicABC R k r).1 * (conicABC R k r).2.2 ∧
+    0 ≤ (-(conicABC R k r).2.1 -
+          Real.sqrt ((conicABC R k r).2.1 ^ 2 - 4 * (conicABC R k r).1 * (conicABC R k r).2.2)) /
+        (2 * (conicABC R k r).1) ∧
+    0 ≤ (-(conicABC R k r).2.1 +
+          Real.sqrt ((conicABC R k r).2.1 ^ 2 - 4 * (conicABC R k r).1 * (conicABC R k r).2.2)) /
+        (2 * (conicABC R k r).1)
+  | _ => True
+
+/-- on a genuine hit the plane distance is the unmasked `-z/N` -/
+theorem planeDistance_genuine (r : Ray ℝ) (h : GenuineHit .plane r) : planeDistance r = -r.z / r.N := by
+  unfold planeDistance maskNeg
+  num_real
+  rw [if_neg (not_lt.2 h.2)]
+
+/-- on a genuine hit the conic distance is one of the two unmasked roots of the quadratic -/
+theorem stdDistance_genuine (R k : ℝ) (r : Ray ℝ) (h : GenuineHit (.standard R k) r) :
+    stdDistance R k r = (-(conicABC R k r).2.1 +
+        Real.sqrt ((conicABC R k r).2.1 ^ 2 - 4 * (conicABC R k r).1 * (conicABC R k r).2.2)) /
+        (2 * (conicABC R k r).1) ∨
+    stdDistance R k r = (-(conicABC R k r).2.1 -
+        Real.sqrt ((conicABC R k r).2.1 ^ 2 - 4 * (conicABC R k r).1 * (conicABC R k r).2.2)) /
+        (2 * (conicABC R k r).1) := by
+  obtain ⟨ha, _, h2, h1⟩ := h
+  unfold stdDistance
+  generalize conicABC R k r = abc at ha h1 h2 ⊢
+  obtain ⟨a, b, c⟩ := abc
+  simp only at ha h1 h2 ⊢
+  unfold selectRoot maskNeg
+  have hz : ¬ (Num.isZero a = true) := by rw [NumReal.isZero_eq]; exact ha
+  simp only [if_neg hz]
+  num_real
+  simp only [Nat.cast_ofNat, Nat.cast_one, div_one]
+  have e : b * b - 4 * a * c = b ^ 2 - 4 * a * c := by ring
+  rw [e, if_neg (not_lt.2 h1), if_neg (not_lt.2 h2)]
+  split
+  · left; rfl
+  · right; rfl
+
+/-- every ray of the batch makes a genuine hit at every surface of the lens -/
+def GenuineLens (w : ℝ) : List (RSurf ℝ) → List (Ray ℝ) → Prop
+  | [], _ => True
+  | s :: ss, rays =>
+    (s.kind ≠ .object → ∀ r ∈ rays.map s.cs.localize, GenuineHit s.geom r) ∧
+      GenuineLens w ss (traceSurf s w rays)
+
+theorem distance_nonneg_of_genuine (g : Geom ℝ) (rays : List (Ray ℝ)) (h : ∀ r ∈ rays, GenuineHit g r) :
+    ∀ t ∈ g.distance rays, 0 ≤ t := by
+  apply distance_nonneg
+  intro R k hg r hr
+  have := h r hr
+  rw [hg] at this
+  exact this.1
+
+/-- `DistNonneg` for lenses and batches on which the ℝ model computes what the code computes -/
+theorem distNonneg_of_genuine (w : ℝ) : ∀ (ss : List (RSurf ℝ)) (rays : List (Ray ℝ)),
+    GenuineLens w ss rays → DistNonneg w ss rays
+  | [], _, _ => trivial
+  | s :: ss, rays, h =>
+    ⟨fun hk => distance_nonneg_of_genuine s.geom _ (h.1 hk), distNonneg_of_genuine w ss _ h.2⟩
+
+/-- **intensity_monotone / intensity_in_unit_interval on genuinely traced rays**: the form of the two
+whole-lens theorems whose hypotheses exclude every `nan`/`inf` branch of the closed-form geometries -/
+theorem intensity_monotone_genuine (w : ℝ) (hw : 0 < w) (ss : List (RSurf ℝ)) (rays : List (Ray ℝ))
+    (hp : ∀ s ∈ ss, Passive s) (hg : GenuineLens w ss rays) (hi : InUnit rays) :
+    Along (fun i i' => 0 ≤ i' ∧ i' ≤ i) rays (traceLens w ss rays) ∧
+    ∀ recs ∈ traceLens w ss rays, InUnit recs :=
+  ⟨intensity_monotone w hw ss rays hp (distNonneg_of_genuine w ss rays hg) (fun r hr => (hi r hr).1),
+   intensity_in_unit_interval w hw ss rays hp (distNonneg_of_genuine w ss rays hg) hi⟩
+
+/-- an absorbing, apertured, coated *spherical* surface (R = 50) at `z = 0` -/
+noncomputable def exSphere : RSurf ℝ :=
+  ⟨.standard, ⟨0, 0, 0, 0, 0, 0⟩, .standard 50 0, 3/2, 1, 1/100000, false, some (5, 1), some (1/2, 1/4)⟩
+
+/-- non-vacuity with a curved surface: the ray from `(0, 2, −10)` along `+z` makes a genuine hit on the
+sphere (`a = 1`, `b = −120`, `c = 1104`, discriminant `9984`, both roots positive) -/
+example : GenuineLens (11/20) [exSphere] [⟨0, 2, -10, 0, 0, 1, 1, 0⟩] ∧ Passive exSphere := by
+  have hloc : exSphere.cs.localize ⟨0, 2, -10, 0, 0, 1, 1, 0⟩ = (⟨0, 2, -10, 0, 0, 1, 1, 0⟩ : Ray ℝ) := by
+    have hz : Num.isZero (0:ℝ) = true := by rw [NumReal.isZero_eq]
+    simp only [exSphere, Cs.localize, truthy, hz, Ray.translate, Bool.not_true, Bool.false_eq_true, if_false]
+    num_real
+    norm_num
+  have habc : conicABC 50 0 (⟨0, 2, -10, 0, 0, 1, 1, 0⟩ : Ray ℝ) = (1, -120, 1104) := by
+    simp only [conicABC]
+    num_real
+    norm_num
+  have hd : ((-120:ℝ)) ^ 2 - 4 * 1 * 1104 = 9984 := by norm_num
+  have hs0 : 0 ≤ Real.sqrt 9984 := Real.sqrt_nonneg _
+  have hs1 : Real.sqrt 9984 ≤ 120 := by
+    rw [Real.sqrt_le_iff]; constructor <;> norm_num
+  refine ⟨⟨fun _ r hr => ?_, trivial⟩, ?_⟩
+  · simp only [List.map_cons, List.map_nil, List.mem_singleton, hloc] at hr
+    subst hr
+    show GenuineHit (.standard 50 0) _
+    simp only [GenuineHit, habc, hd]
+    refine ⟨one_ne_zero, by norm_num, ?_, ?_⟩
+    · apply div_nonneg <;> linarith
+    · apply div_nonneg <;> linarith
+  · refine ⟨by norm_num [exSphere], ?_⟩
+    intro T R h
+    simp only [exSphere, Option.some.injEq, Prod.mk.injEq] at h
+    obtain ⟨h1, h2⟩ := h
+    rw [← h1, ← h2]; norm_num
 
 end C16
